@@ -345,6 +345,9 @@ fn pres(n: usize) -> Vec<Pre> {
             Pre::Poly(vec![(vec![-1.0], -0.5), (vec![2.0], 3.0), (vec![1.0], 2.0)]), // [0.5,1.5] with a redundant row
             Pre::FromAff(Aff::row1(&[2.0], -1.0)),
             Pre::PolyMap(vec![(vec![1.0], 1.0), (vec![-1.0], 1.0)], Aff::row1(&[-1.0], 0.5)),
+            // rows without coefficients behind an ordinary one: 0 <= -1 makes the set empty, 0 <= 1 says nothing
+            Pre::Poly(vec![(vec![1.0], 1.0), (vec![0.0], -1.0)]),
+            Pre::Poly(vec![(vec![1.0], 1.0), (vec![0.0], 1.0), (vec![-1.0], 1.0)]),
         ]
     } else {
         vec![
@@ -355,6 +358,7 @@ fn pres(n: usize) -> Vec<Pre> {
             Pre::Poly(vec![(vec![1.0, 0.0], 0.0), (vec![-1.0, 0.0], -1.0)]),                        // empty
             Pre::FromAff(Aff::new(vec![vec![1.0, 1.0], vec![1.0, -1.0]], vec![0.0, 0.5])),
             Pre::PolyMap(vec![(vec![1.0, 1.0], 1.0), (vec![-1.0, 0.0], 1.0)], Aff::new(vec![vec![0.0, 1.0], vec![1.0, 0.0]], vec![0.0, 0.0])),
+            Pre::Poly(vec![(vec![1.0, 0.0], 1.0), (vec![0.0, 0.0], -1.0), (vec![0.0, 1.0], 1.0)]),
         ]
     }
 }
@@ -375,6 +379,10 @@ pub fn families(tier: Tier) -> Vec<Family> {
             v.push(Family { n: 2, widths: vec![2, 2], ident: true, values: vec![-1.0, 2.0], acts: vec![Act::Relu, Act::HardTanh], heads: true, pres: pres(2), budget: 4 });
             v.push(Family { n: 1, widths: vec![1, 1], ident: true, values: vec![1.0, -1.0, 2.0, 0.5], acts: acts_twice.clone(), heads: false, pres: vec![], budget: 4 });
             v.push(Family { n: 2, widths: vec![2], ident: true, values: vec![1.0, -1.0], acts: acts_twice.clone(), heads: true, pres: vec![], budget: 4 });
+            // equal widths in consecutive blocks and several slopes: two leaky layers on the same row and width with
+            // different slopes within one network
+            v.push(Family { n: 1, widths: vec![1, 1], ident: true, values: vec![1.0, -1.0], acts: acts_all.clone(), heads: false, pres: vec![], budget: 3 });
+            v.push(Family { n: 2, widths: vec![2, 2], ident: true, values: vec![-1.0], acts: vec![Act::Leaky(0.5), Act::Leaky(2.0)], heads: false, pres: vec![], budget: 2 });
         }
         Tier::Thorough => {
             for ident in [false, true] {
@@ -391,6 +399,10 @@ pub fn families(tier: Tier) -> Vec<Family> {
             v.push(Family { n: 3, widths: vec![2], ident: true, values: vec![1.0, -1.0], acts: vec![Act::Relu, Act::HardTanh], heads: true, pres: vec![], budget: 4 });
             v.push(Family { n: 1, widths: vec![1, 1], ident: true, values: vec![1.0, -1.0, 2.0, 0.5], acts: acts_twice.clone(), heads: false, pres: pres(1), budget: 5 });
             v.push(Family { n: 2, widths: vec![2, 2], ident: true, values: vec![1.0, -1.0], acts: acts_twice.clone(), heads: true, pres: vec![], budget: 4 });
+            // equal widths in consecutive blocks and several slopes: two leaky layers on the same row and width with
+            // different slopes within one network
+            v.push(Family { n: 1, widths: vec![1, 1], ident: true, values: vec![1.0, -1.0], acts: acts_all.clone(), heads: false, pres: vec![], budget: 4 });
+            v.push(Family { n: 2, widths: vec![2, 2], ident: true, values: vec![-1.0], acts: vec![Act::Leaky(0.5), Act::Leaky(2.0), Act::Leaky(-1.0)], heads: false, pres: vec![], budget: 3 });
         }
     }
     v
